@@ -31,7 +31,7 @@ NAMES = ["m", "__call__", "register", "mro", "__eq__"]
 def specs(tier):
     out = []
     if tier == "quick":
-        shapes = ["single", "chain2", "chain3", "two_bases", "two_bases_rev", "diamond"]
+        shapes = ["single", "chain2", "chain3", "two_bases", "two_bases_rev", "diamond", "y_shape"]
         kinds = ["method", "pget", "static", "pset"]
         mopts = MOPTS_Q
     else:
@@ -242,7 +242,7 @@ class Ref:
             return r
         pres, posts = cnames(c, opt, self.prefix)
         bases = self.bases[c]
-        base_effs = [self.eff(b) for b in bases if self.provides(b)]
+        base_effs = [self.inh(b) for b in bases if self.provides(b)]
         if not bases and self.object_provides:
             base_effs = [("TRUE", frozenset())]
         if not base_effs:
@@ -256,6 +256,19 @@ class Ref:
         allposts = frozenset(posts).union(*[e[1] for e in base_effs]) if base_effs else frozenset(posts)
         self._eff[c] = (groups, allposts)
         return self._eff[c]
+
+    def inh(self, c):
+        """What a sub-class that overrides the member inherits through its base c. A class that defines the member hands on its
+        effective contracts; a class that does NOT define it (a gap) hands on what all ITS bases hand on - not only the contracts of
+        the implementation Python's MRO selects for calls on its own instances: the overriding sub-class is a subtype of every one
+        of those ancestors."""
+        if self.mopt[c] is not None:
+            return self.eff(c)
+        effs = [self.inh(b) for b in self.bases[c] if self.provides(b)]
+        if not effs:
+            return ("TRUE", frozenset()) if self.object_provides else None
+        groups = "TRUE" if any(e[0] == "TRUE" for e in effs) else [g for e in effs for g in e[0]]
+        return (groups, frozenset().union(*[e[1] for e in effs]))
 
     def invariants(self, c, event="call"):
         """Invariants evaluated around a call; event="construct": all of them (also the SETATTR-only ones)."""
